@@ -57,6 +57,12 @@ meta["detected_by"] = [c for c, v in results.items() if any("VIOLATION" in x for
 print(json.dumps({"ok": ok, "detected_by": meta["detected_by"], "confirmed": {k: meta["confirmed"][k] for k in ("demo_rc_unpatched", "demo_rc_patched", "demo_rc_reverted", "tests_ok")}}))
 if ok:
     dst = "/verif/seeded/%s/%s" % (pid, name)
+    try:
+        old_note = json.load(open(dst + "/meta.json")).get("note")
+        if old_note and not meta.get("note"):
+            meta["note"] = old_note
+    except (OSError, ValueError):
+        pass
     shutil.rmtree(dst, ignore_errors=True)
     shutil.copytree(src, dst)
     json.dump(meta, open(dst + "/meta.json", "w"), indent=1)
